@@ -564,6 +564,18 @@ func configure(g *gen) {
 	add(FnSpec{Recv: "Context", Func: "WriteString", Lean: "Ctx.WriteString", Extra: []string{"(ext : Int × Bool)"}, Mutates: true,
 		Exts: []Ext{{Callee: "$.WriteBytes", Stmts: []string{"$ ← Gen.Ctx.WriteBytes $ %1 ext"}, MayPanic: true}}})
 	add(FnSpec{Recv: "Context", Func: "SetStatusCode", Lean: "Ctx.SetStatusCode"})
+	// the request readers: the header map and the method of `c.Req` are parameters (`hdr req key` = the values under the
+	// key as written, `hget req key` = Header.Get, `meth req` = the method)
+	rqExtra := []string{"(hdr : Option Nat → Bytes → List Bytes)", "(hget : Option Nat → Bytes → Bytes)", "(meth : Option Nat → Bytes)"}
+	rqExts := []Ext{
+		{Callee: "$.Req.Header[]", Values: []string{"(hdr $.req %1)", "true"}, Ts: []T{tStrList, tBool}},
+		{Callee: "$.Req.Header.Get", Value: "(hget $.req %1)", T: tStr},
+		{Callee: "$.Req.Method", Value: "(meth $.req)", T: tStr},
+		{Callee: "$.Header", Stmts: []string{"let %t ← Gen.Ctx.Header $ %1 hdr hget meth"}, Value: "%t", T: tStr, MayPanic: true},
+	}
+	for _, n := range []string{"Header", "IsAjax", "IsGet", "IsPost", "IsMethod", "IsWebSocket", "ContentType"} {
+		add(FnSpec{Recv: "Context", Func: n, Lean: "Ctx." + n, Extra: rqExtra, Types: map[string]T{"[]string": tStrList}, Exts: rqExts})
+	}
 	add(FnSpec{Recv: "Context", Func: "SetHandlers", Lean: "Ctx.SetHandlers", Mutates: true,
 		Types: map[string]T{"rux.HandlersChain": {"opaque", "List Unit"}}})
 	// the URL-query readers: `c.Req.URL.Query()` parses the raw query on EVERY call (a parameter: `query req key` = the
